@@ -1,5 +1,7 @@
 //! C27 (build with `--features uring`): hooked calls that go through io_uring on the real event loops.
-//! body: `<loops> <coroutines> <threads> <per> <mix>`   mix: ok | err | mixed
+//! body: `<loops> <coroutines> <threads> <per> <mix>`   mix: ok | err | mixed | sock
+//!   sock: each caller owns a TCP loopback connection: hooked send of its own pattern, then hooked recv into a
+//!   4-byte buffer (data stays queued), then recv of the rest
 //!   every caller (task coroutine or plain thread) makes `per` hooked calls, each with its own data:
 //!   write(fd_k, pattern_k) to its own pipe then read it back / or an erroneous call (bad fd, expecting -1 EBADF)
 //! out: `ok=<calls whose result was their own> wrong=<n> lost=<callers that never finished> errs=<error calls answered -1/EBADF>`
@@ -17,7 +19,7 @@ pub fn gen(r: &mut Rng, thorough: bool) -> String {
     let cos = r.range(0, 6);
     let threads = if risky && loops == 1 { r.range(1, 4) } else if cos == 0 { 1 } else { 0 };
     let per = if thorough { r.range(20, 400) } else { r.range(5, 60) };
-    let mix = *r.pick(&["ok", "err", "mixed", "mixed", "ok+gap"]);
+    let mix = *r.pick(&["ok", "err", "mixed", "mixed", "ok+gap", "sock", "sock"]);
     let per = if mix.ends_with("+gap") { per.min(8) } else { per };
     format!("{loops} {cos} {threads} {per} {mix}")
 }
@@ -27,7 +29,41 @@ static WRONG: AtomicU64 = AtomicU64::new(0);
 static ERRS: AtomicU64 = AtomicU64::new(0);
 static DONE: AtomicU64 = AtomicU64::new(0);
 
+fn tcp_pair() -> (i32, i32) {
+    use std::os::fd::IntoRawFd;
+    let l = std::net::TcpListener::bind("127.0.0.1:0").expect("bind");
+    let a = std::net::TcpStream::connect(l.local_addr().unwrap()).expect("connect");
+    let (b, _) = l.accept().expect("accept");
+    let _ = a.set_nodelay(true);
+    (a.into_raw_fd(), b.into_raw_fd())
+}
+
+fn sock_caller(id: u64, per: u64) {
+    let (a, b) = tcp_pair();
+    for k in 0..per {
+        let len = 5 + ((id * 7 + k) % 40) as usize;
+        let pat: Vec<u8> = (0..len).map(|i| (id as u8).wrapping_mul(17).wrapping_add(k as u8).wrapping_add(i as u8)).collect();
+        let w = open_coroutine_core::syscall::send(None, a, pat.as_ptr().cast(), len, 0);
+        let mut got: Vec<u8> = Vec::new();
+        let mut small = [0u8; 4];
+        let r1 = open_coroutine_core::syscall::recv(None, b, small.as_mut_ptr().cast(), 4, 0);
+        if r1 > 0 { got.extend_from_slice(&small[..r1 as usize]); }
+        let mut guard = 0;
+        while got.len() < len && guard < 20 {
+            let mut rest = [0u8; 64];
+            let r2 = open_coroutine_core::syscall::recv(None, b, rest.as_mut_ptr().cast(), 64, 0);
+            if r2 <= 0 { break; }
+            got.extend_from_slice(&rest[..r2 as usize]);
+            guard += 1;
+        }
+        if w == len as isize && r1 == 4 && got == pat { OK.fetch_add(1, Ordering::SeqCst); } else { WRONG.fetch_add(1, Ordering::SeqCst); }
+    }
+    unsafe { libc::close(a); libc::close(b); }
+    DONE.fetch_add(1, Ordering::SeqCst);
+}
+
 fn caller(id: u64, per: u64, mix: &str) {
+    if mix == "sock" { return sock_caller(id, per); }
     let mut fds = [0i32; 2];
     unsafe { libc::pipe(fds.as_mut_ptr()); }
     for k in 0..per {
